@@ -532,7 +532,10 @@ impl St {
                 self.objs.insert(id, o);
                 "ok".into()
             }
-            None => "err".into(),
+            None => {
+                self.objs.remove(&id);
+                "err".into()
+            }
         })
     }
 
@@ -630,6 +633,7 @@ impl St {
                 "num_levels" => v.num_levels().to_string(),
                 "widths" => fl(&v.widths()),
                 "access" => on(v.access(num(a[0])?)),
+                "brute_cost" => "-".to_string(), // answered by the model and the specification only
                 _ => return Err(format!("bad do query {m}")),
             },
             Obj::Ps(v) => match m {
@@ -853,7 +857,7 @@ fn main() {
         let res: Result<Res, _> = catch_unwind(AssertUnwindSafe(|| match t[0] {
             "case" => {
                 st.objs.clear();
-                Ok(format!("case {}", t.get(1).unwrap_or(&"")))
+                Ok(format!("case {}", t[1..].join(" ")))
             }
             "new" => st.new_obj(&t),
             "q" => st.query(&t),
